@@ -212,7 +212,9 @@ def _mimic_async[**Args, Result](
         except AttributeError:
             pass
     try:
-        within.__dict__.update(function.__dict__)
+        # do not override own attributes, i.e. when wrapping an already wrapped function
+        for key, value in function.__dict__.items():
+            within.__dict__.setdefault(key, value)
 
     except AttributeError:
         pass
